@@ -725,7 +725,7 @@ impl Check for SsPoolHistory {
                         // ask side is gross - swap_fee; use the emitted claims only for the swap fee
                         // split, validated against the reserve delta
                         let attrs = crate::pools::swap_attrs(&resp, &pw.pair)
-                            .ok_or_else(|| Fail::new("swap response lacks attributes"))?;
+                            .ok_or_else(|| Fail::unobservable("the swap response carries no parsable return / spread / fee attributes"))?;
                         let left = before.reserves[ai] - after.reserves[ai];
                         ensure!(
                             left == attrs.return_amount + attrs.protocol_fee + attrs.burn_fee,
